@@ -68,6 +68,19 @@ def toTri (l : List Rat) : R Tri :=
 def ofMat (A : Mat) : Json :=
   obj [("shape", ofNats [A.r, A.c]), ("rows", ofList ofRats A.rows)]
 
+def dumpH (st : St) (hyp : Bool) : Json :=
+  obj [("hyp", Json.bool hyp),
+       ("primary_to_mortar_int", ofMat st.proj.p2mInt), ("primary_to_mortar_avg", ofMat st.proj.p2mAvg),
+       ("secondary_to_mortar_int", ofMat st.proj.s2mInt), ("secondary_to_mortar_avg", ofMat st.proj.s2mAvg),
+       ("mortar_to_primary_int", ofMat st.proj.m2pInt), ("mortar_to_primary_avg", ofMat st.proj.m2pAvg),
+       ("mortar_to_secondary_int", ofMat st.proj.m2sInt), ("mortar_to_secondary_avg", ofMat st.proj.m2sAvg)]
+
+/-- `tessPair` for every replaced side -/
+def mortarHyp : List (List Cell) → List (Option (List Cell)) → Bool
+  | g :: gs, some n :: ns => tessPair n g && mortarHyp gs ns
+  | _ :: gs, none :: ns => mortarHyp gs ns
+  | _, _ => true
+
 def dump (st : St) : Json :=
   obj [("primary_to_mortar_int", ofMat st.proj.p2mInt), ("primary_to_mortar_avg", ofMat st.proj.p2mAvg),
        ("secondary_to_mortar_int", ofMat st.proj.s2mInt), ("secondary_to_mortar_avg", ofMat st.proj.s2mAvg),
@@ -95,7 +108,7 @@ def stepOne (st : Option St) (j : Json) : R (Option St × Json) := do
     | none => pure (none, err "ValueError")
     | some (P, S) =>
       let s : St := ⟨initProj P S, sides, nSec⟩
-      pure (some s, dump s)
+      pure (some s, dumpH s (wellFormedB nPrim nSec entries))
   | _, none => pure (none, err "no-state")
   | "mortar", some s =>
     let raw ← field j "sides" >>= jList (jOpt (jList (jList jRat)))
@@ -103,17 +116,23 @@ def stepOne (st : Option St) (j : Json) : R (Option St × Json) := do
       | none => pure none
       | some l => some <$> toCells l)
     let s' := step s (.mortar ns)
-    pure (some s', dump s')
+    pure (some s', dumpH s' (mortarHyp s.sides ns))
   | "secondary", some s =>
     let cells ← toCells (← fRatss j "cells")
     let s' := step s (.secondary cells)
-    pure (some s', dump s')
+    pure (some s', dumpH s' (s.sides.all fun g => tessPair g cells))
   | "primary", some s =>
     let nNew ← fNat j "n_new"
     let old ← (← fRatss j "old").mapM toFace
     let new ← (← fRatss j "new").mapM toFace
     let s' := step s (.primary nNew old new)
-    pure (some s', dump s')
+    let oldC := old.filter fun f => covered s.proj.p2mInt f.idx
+    pure (some s', dumpH s' (faceHypsB s.proj.p2mInt nNew oldC new true && faceHypsB s.proj.p2mInt nNew oldC new false))
+  | "kron", some s =>
+    let nd ← fNat j "nd"
+    pure (some s, obj [("primary_to_mortar_avg_nd", ofMat (s.proj.p2mAvg.kron nd)),
+                       ("mortar_to_secondary_int_nd", ofMat (s.proj.m2sInt.kron nd)),
+                       ("sign", ofMat (signMat (s.sides.map (·.length))))])
   | _, _ => throw s!"unknown op {op}"
 
 /-- one model state per interface (`"intf"`, default 0) -/
